@@ -370,7 +370,7 @@ class Oracle:
             f = d / "fem.json"
             f.write_text(json.dumps({"progs": progs_json, "confs": confs, "cases": [cases[i] for i in todo]}))
             r = tlc.run(d, "Fem", cfg_text="SPECIFICATION Spec\n", workers=2, env={"FEM_FILE": str(f)},
-                        timeout=3000, heap="3g")
+                        timeout=10800, heap="3g")
             st[0] += r.distinct
             st[1] += r.generated
             for s in r.printed:
@@ -757,7 +757,7 @@ def run_items(chk, items, nworkers=4, module_size=8):
         exp = []
         if fem["cases"]:
             n = len(fem["cases"])
-            chunk = 40
+            chunk = 40 if len(items) <= 200 else 12      # thorough batches hold heavy 3D cases: keep TLC runs short
             for lo in range(0, n, chunk):
                 ids2 = list(range(lo, min(n, lo + chunk)))
                 cmap, confs, cases = {}, [], []
@@ -1225,7 +1225,10 @@ def function_tables(prog, part, cpart, x, w, c):
         row, jrow = [], []
         for q in range(nq):
             args = [_pyeval(a, q, prog, cpart, x, w, c, fvals) for a in ft["args"]]
-            v = _libm(ft["fn"], args, cx)
+            try:
+                v = _libm(ft["fn"], args, cx)
+            except (ValueError, OverflowError, ZeroDivisionError) as e:
+                raise OutOfModel(f"{ft['fn']}: {e}") from e
             if not (math.isfinite(v.real) and math.isfinite(v.imag)) or abs(v) > 1e4:
                 raise OutOfModel(f"{ft['fn']} value out of range")
             re, im = Fr(round(v.real * 4096), 4096), Fr(round(v.imag * 4096), 4096)
